@@ -137,14 +137,19 @@ def parse_file(path, want=None):
     cur = None
     blk = None
     wantre = re.compile(want) if want else None
+    matched = set()
     with open(path, errors="replace") as f:
         for raw in f:
             line = raw.rstrip("\n")
             if cur is None:
                 if line.startswith("fn ") and line.rstrip().endswith("{"):
                     if wantre and not wantre.search(line):
-                        continue
+                        # closures (and nested closures) of a selected function are selected with it
+                        i = line.find("::{closure#")
+                        if i < 0 or line[3:i] not in matched:
+                            continue
                     name, args, ret = parse_header(line)
+                    matched.add(name)
                     cur = MirFn(line, name, args, ret)
                     for a, t in args:
                         cur.locals[a] = t
